@@ -1,7 +1,16 @@
 package c09
 
 import (
+	"fmt"
+	"sync"
+	"sync/atomic"
 	"testing"
+	"time"
+
+	"github.com/cilium/statedb"
+
+	"verifharness/concw"
+	"verifharness/hookctl"
 
 	"verifharness/dbsim"
 	"verifharness/vkit"
@@ -42,3 +51,154 @@ func TestVerif_WithCollector(t *testing.T) {
 
 var opts = dbsim.Opts{Tables: 2, Txns: 30, MaxOps: 8, ProbesPerIndex: 1, AbortPct: 20, Iterators: true, Retain: 4,
 	Report: map[string]bool{"rev": true}}
+
+// Concurrent sampler under the race detector: one writer per table records the revision of each of its commits; samplers take
+// snapshots continuously and assert, per table, that the revision never decreases from one snapshot to the next, is constant
+// within a snapshot, and is one of the revisions its writer has published (the latest one or a later one); meanwhile other
+// goroutines commit to other tables, create and close change iterators (tracker commits) and the collector runs every millisecond.
+func TestVerifRace_Sampler(t *testing.T) {
+	r := vkit.Start(t, "C09", "sampler-race", "exploration", "3 tables, one writer each (inserts/deletes/rejected compare-and-swaps/aborts), 3 samplers, iterator create/Next/close churn and the collector at 1 ms, delays injected at the hook points; "+
+		"per table the revision must be constant within a snapshot, non-decreasing across successive snapshots and never below the last revision its writer committed before the snapshot was taken; non-trivial = samples were compared; distinct = (seed, run)")
+	r.Require("samples", "commits_recorded")
+	ctl := hookctl.Install(vkit.Seed())
+	defer ctl.Uninstall()
+	ctl.SetStress(true)
+	n := vkit.N(10, 200)
+	r.ParallelCases(n, 2, func(idx int) {
+		rng := r.Rand(idx)
+		_ = rng
+		db := statedb.New()
+		db.VerifSetGCInterval(time.Millisecond)
+		db.Start()
+		defer db.Stop()
+		tabs := concw.NewTables(db, "r", 3)
+		var committed [3]atomic.Uint64
+		var stop atomic.Bool
+		var wg sync.WaitGroup
+		var samples, commits atomic.Int64
+		for ti := range tabs {
+			wg.Add(1)
+			go func(ti int) {
+				defer wg.Done()
+				wr := r.Rand(idx, uint64(ti)+1)
+				tb := tabs[ti]
+				h := db.NewHandle(fmt.Sprintf("c9-%d-w%d", idx, ti))
+				for o := 0; o < 250; o++ {
+					w := h.WriteTxn(tb)
+					before := tb.Revision(w)
+					for k := 0; k < 1+wr.IntN(3); k++ {
+						id := fmt.Sprint(wr.IntN(8))
+						switch wr.IntN(4) {
+						case 0:
+							tb.Delete(w, &concw.Row{ID: id})
+						case 1:
+							tb.CompareAndSwap(w, 1<<40, &concw.Row{ID: id, V: 1}) // rejected
+						default:
+							tb.Insert(w, &concw.Row{ID: id, V: int64(o)})
+						}
+					}
+					after := tb.Revision(w)
+					if after < before {
+						r.Violation("rev/decreased-in-txn", idx, map[string]any{"message": fmt.Sprintf("table %d: revision went %d -> %d inside a write transaction", ti, before, after)})
+					}
+					if wr.IntN(8) == 0 {
+						w.Abort()
+						continue
+					}
+					rt := w.Commit()
+					if got := tb.Revision(rt); got != after {
+						r.Violation("rev/commit-snapshot", idx, map[string]any{"message": fmt.Sprintf("table %d: Commit's snapshot has revision %d, the transaction had %d", ti, got, after)})
+					}
+					committed[ti].Store(after)
+					commits.Add(1)
+				}
+			}(ti)
+		}
+		// iterator churn on all tables
+		wg.Add(1)
+		go func() {
+			defer wg.Done()
+			cr := r.Rand(idx, 99)
+			h := db.NewHandle(fmt.Sprintf("c9-%d-it", idx))
+			for !stop.Load() {
+				tb := tabs[cr.IntN(3)]
+				w := h.WriteTxn(tb)
+				it, err := tb.Changes(w)
+				w.Commit()
+				if err != nil {
+					continue
+				}
+				for k := 0; k < 3; k++ {
+					seq, _ := it.Next(h.ReadTxn())
+					for range seq {
+					}
+				}
+				it.Close()
+			}
+		}()
+		var swg sync.WaitGroup
+		for s := 0; s < 3; s++ {
+			swg.Add(1)
+			go func() {
+				defer swg.Done()
+				var last [3]uint64
+				for !stop.Load() {
+					var floor [3]uint64
+					for ti := range tabs {
+						floor[ti] = committed[ti].Load()
+					}
+					rt := db.ReadTxn()
+					for ti, tb := range tabs {
+						a := tb.Revision(rt)
+						b := tb.Revision(rt)
+						samples.Add(1)
+						switch {
+						case a != b:
+							r.Violation("rev/not-constant-in-snapshot", idx, map[string]any{"message": fmt.Sprintf("table %d: two reads of one snapshot gave %d and %d", ti, a, b)})
+						case a < last[ti]:
+							r.Violation("rev/decreased-across-snapshots", idx, map[string]any{"message": fmt.Sprintf("table %d: revision %d in a snapshot taken after one that showed %d", ti, a, last[ti])})
+						case a < floor[ti]:
+							r.Violation("rev/below-committed", idx, map[string]any{"message": fmt.Sprintf("table %d: snapshot shows revision %d although revision %d had been committed before it was taken (a commit was lost or overwritten)", ti, a, floor[ti])})
+						}
+						last[ti] = a
+					}
+				}
+			}()
+		}
+		done := make(chan struct{})
+		go func() {
+			// writers finish first; then stop the rest
+			time.Sleep(10 * time.Millisecond)
+			close(done)
+		}()
+		<-done
+		// wait for the three writers (they are the first three in wg together with the churn goroutine)
+		for commits.Load() < 1 {
+			time.Sleep(time.Millisecond)
+		}
+		// let writers run to completion
+		wdone := make(chan struct{})
+		go func() {
+			for {
+				if committed[0].Load() > 0 && committed[1].Load() > 0 && committed[2].Load() > 0 {
+					break
+				}
+				time.Sleep(time.Millisecond)
+			}
+			close(wdone)
+		}()
+		<-wdone
+		time.Sleep(300 * time.Millisecond)
+		stop.Store(true)
+		wg.Wait()
+		swg.Wait()
+		r.Count("samples", samples.Load())
+		r.Count("commits_recorded", commits.Load())
+		r.Case(uint64(idx), samples.Load() > 0)
+		if r.WantSample() {
+			r.Sample(map[string]any{"case": idx, "samples": samples.Load(), "commits": commits.Load()})
+		}
+	})
+	r.Count("interleaving_signatures", int64(ctl.Signatures()))
+	r.Finish()
+}
